@@ -49,6 +49,7 @@ type restoredListener struct {
 type restartReport struct {
 	Agents    []restoredAgent    `json:"agents"`
 	Listeners []restoredListener `json:"listeners"`
+	StartMS   int64              `json:"start_ms"` // time the real Start() took to restore (until it appended the profile event)
 }
 
 // startReal runs the real (*Teamserver).Start() on dir and waits until it has finished
@@ -94,15 +95,18 @@ func startReal(dir string, say func(string)) *server.Teamserver {
 }
 
 func restartChild(cfg childCfg, say func(string)) {
+	t0 := time.Now()
 	ts := startReal(cfg.Dir, say)
 	if ts == nil {
 		return
 	}
+	startMS := time.Since(t0).Milliseconds()
 	if cfg.Mode == "segment" {
-		segmentChild(cfg, ts, say)
+		segmentChild(cfg, ts, say, startMS)
 		return
 	}
 	var rep restartReport
+	rep.StartMS = startMS
 	for _, a := range ts.Agents.Agents {
 		if a == nil {
 			rep.Agents = append(rep.Agents, restoredAgent{Image: AgentImage{ID: "<nil>"}})
@@ -162,12 +166,13 @@ type segReport struct {
 	Pairs []pair                `json:"pairs"`
 	Restored map[string]sessView `json:"restored"` // the sessions right after Start(), before the segment's operations
 	Rows     []pvx.LinkRow       `json:"rows"`     // TS_Links at that moment
+	StartMS  int64               `json:"start_ms"`
 	Stopped  bool                `json:"stopped"`  // the segment ended at a restart that is to be performed (operation Next-1)
 }
 
 // segmentChild: under the real Start(), apply the operations from cfg.From up to the next
 // effective restart (or the end) and report the state the server holds.
-func segmentChild(cfg childCfg, ts *server.Teamserver, say func(string)) {
+func segmentChild(cfg childCfg, ts *server.Teamserver, say func(string), startMS int64) {
 	w, err := pvx.WrapTS(cfg.Dir, ts)
 	if err != nil {
 		say("ERROR " + err.Error())
@@ -186,11 +191,13 @@ func segmentChild(cfg childCfg, ts *server.Teamserver, say func(string)) {
 		stop = true
 		return true
 	}
-	rep := segReport{Next: len(cfg.H.Ops)}
+	ops := cfg.H.flat()
+	rep := segReport{Next: len(ops)}
+	rep.StartMS = startMS
 	rep.Restored = memView(w)
 	rep.Rows, _ = pvx.LinkRows(w.SQL)
-	for i := cfg.From; i < len(cfg.H.Ops); i++ {
-		r.apply(cfg.H.Ops[i])
+	for i := cfg.From; i < len(ops); i++ {
+		r.apply(ops[i])
 		if stop {
 			rep.Next = i + 1
 			rep.Stopped = true
@@ -322,9 +329,10 @@ func runC(h History, mode string) *core.Violation {
 	// the first segment runs in this process; at every effective restart the rest of the
 	// history moves to a new child process that runs the real Start() first
 	handover := -1
+	ops := h.flat()
 	var pm *pmodel // histories with restarts at any point: the link structure is followed by the model of piv_test.go
 	if hasRestartX(h) {
-		pm = newPModel(len(h.Agents))
+		pm = newPModel(h.nAgents())
 	}
 	// pmTo advances the model over ops[from:to]; when restarted, ops[to-1] is the restart that was performed
 	pmTo := func(from, to int, restarted bool) {
@@ -335,15 +343,15 @@ func runC(h History, mode string) *core.Violation {
 		for i := from; i < to; i++ {
 			switch {
 			case i == to-1 && restarted:
-				pm.step(h.Ops[i], &yes)
-			case h.Ops[i].K == "restart" || h.Ops[i].K == "restartx":
-				pm.step(h.Ops[i], &no)
+				pm.step(ops[i], &yes)
+			case ops[i].K == "restart" || ops[i].K == "restartx":
+				pm.step(ops[i], &no)
 			default:
-				pm.step(h.Ops[i], nil)
+				pm.step(ops[i], nil)
 			}
 		}
 	}
-	for i, op := range h.Ops {
+	for i, op := range ops {
 		if op.K == "restart" || op.K == "restartx" {
 			if op.K == "restartx" || reopenable(w) {
 				handover = i + 1
@@ -357,7 +365,7 @@ func runC(h History, mode string) *core.Violation {
 	if handover >= 0 {
 		pmTo(0, handover, true)
 	} else {
-		pmTo(0, len(h.Ops), false)
+		pmTo(0, len(ops), false)
 	}
 
 	want := map[string]AgentImage{}
@@ -377,6 +385,7 @@ func runC(h History, mode string) *core.Violation {
 			break
 		}
 		nseg++
+		noteStartTime(len(sr.Restored), sr.StartMS)
 		if pm != nil {
 			// the real Start() at the head of this segment: restored sessions and structure
 			var before []string
@@ -396,7 +405,7 @@ func runC(h History, mode string) *core.Violation {
 		want, pairs, st = sr.Want, sr.Pairs, sr.St
 		r.lmod, r.lorig = st.Lmod, st.Lorig
 		handover = -1
-		if sr.Next < len(h.Ops) {
+		if sr.Next < len(ops) {
 			handover = sr.Next
 		}
 	}
@@ -423,6 +432,7 @@ func runC(h History, mode string) *core.Violation {
 		return core.V("restart|did-not-complete", "the restarted teamserver did not finish restoring: %v", err)
 	}
 
+	noteStartTime(len(rep.Agents), rep.StartMS)
 	got := map[string]restoredAgent{}
 	for _, a := range rep.Agents {
 		if _, dup := got[a.Image.ID]; dup {
@@ -579,6 +589,9 @@ func runC(h History, mode string) *core.Violation {
 
 func genC(t *rapid.T) History {
 	var h History
+	if uniformBits(t, 2, "scale-bit") == 0 {
+		return genScaleHistory(t, "c") // scale_test.go: 1 history in 4 - only here the real Start() restores the large database
+	}
 	if rapid.IntRange(0, 3).Draw(t, "pivot-trees") == 0 {
 		return genPivotHistory(t, 5, 8) // piv_test.go (every restart is a child process here: shorter histories)
 	}
@@ -609,11 +622,27 @@ func TestC10c(t *testing.T) {
 	}
 	core.Run(t, core.Spec[History]{
 		Property: "C10", Sub: "c",
-		Rule: "histories as in (a) (1-4 agents, 0-16 operations, one third of the listener adds HTTP on ephemeral ports) plus restart operations in the middle and the crafted update / re-registration families; the first segment is applied in-process, at every effective restart the rest of the history moves to a NEW child process that first runs the real (*Teamserver).Start() on the directory and then applies the following operations to that server (extra.segments_under_real_start); finally a child process runs the real (*Teamserver).Start() on the same directory and reports its sessions (25 recorded values, key, IV, Parent, Links) and its listeners (handlers.HTTPConfig / SMBConfig / ExternalConfig as started). Oracle: restarted state == state of the server before the restart: same active sessions and values, same parent/child structure among them (no nil entries), same listeners with every operator-configured field (Hosts, HostBind, HostRotation, PortBind, PortConn, UserAgent, Headers, Uris, HostHeader, Secure, Proxy; PipeName; Endpoint). Non-trivial as in (a) ADDED: a quarter of the histories are pivot-tree histories with restarts at any point as in (a) (3-5 agents, 3-8 events): every restartx hands the rest of the history to a new child process under the real Start(); each child reports the sessions, Parent and Links it holds right after Start() and the rows of TS_Links, which are compared with the sessions active before that restart and the model of the link events; the final real restart is compared in the same way (signatures any-point-restart|..., links|two-rows-for-one-child) ADDED: listener names also from the kind x name class product of (a); one in eight of the HTTP listeners is HTTPS (Secure=true: the restarted server generates the certificate again); Secure is compared; a missing HTTPS listener is reported as restart|listeners|not-restored|https|<name class>",
+		Rule: "histories as in (a) (1-4 agents, 0-16 operations, one third of the listener adds HTTP on ephemeral ports) plus restart operations in the middle and the crafted update / re-registration families; the first segment is applied in-process, at every effective restart the rest of the history moves to a NEW child process that first runs the real (*Teamserver).Start() on the directory and then applies the following operations to that server (extra.segments_under_real_start); finally a child process runs the real (*Teamserver).Start() on the same directory and reports its sessions (25 recorded values, key, IV, Parent, Links) and its listeners (handlers.HTTPConfig / SMBConfig / ExternalConfig as started). Oracle: restarted state == state of the server before the restart: same active sessions and values, same parent/child structure among them (no nil entries), same listeners with every operator-configured field (Hosts, HostBind, HostRotation, PortBind, PortConn, UserAgent, Headers, Uris, HostHeader, Secure, Proxy; PipeName; Endpoint). Non-trivial as in (a) ADDED: a quarter of the histories are pivot-tree histories with restarts at any point as in (a) (3-5 agents, 3-8 events): every restartx hands the rest of the history to a new child process under the real Start(); each child reports the sessions, Parent and Links it holds right after Start() and the rows of TS_Links, which are compared with the sessions active before that restart and the model of the link events; the final real restart is compared in the same way (signatures any-point-restart|..., links|two-rows-for-one-child) ADDED: listener names also from the kind x name class product of (a); one in eight of the HTTP listeners is HTTPS (Secure=true: the restarted server generates the certificate again); Secure is compared; a missing HTTPS listener is reported as restart|listeners|not-restored|https|<name class> ADDED - SCALE (1 history in 4: only here the REAL Start() restores a large database - (a) and (b) use the transcription of its restore loops in pvx.Reopen and cannot see a defect inside Start() itself): as in (a), pool cut at 1025 sessions / 1025 listeners in the quick tier (4097 / 1025 thorough), no bulk restarts; every restart of such a history is a child process under the real Start() which reports sessions, Parent, Links and TS_Links rows right after Start(); extra.real_start_ms_max@sessions:<bucket> is the longest real Start() seen per number of restored sessions (the child has 60 s to finish restoring)",
 		Gen:   genC, Check: checkC, Classify: classifyH,
 		Assumptions: []string{
 			"the restarted server is observed through its exported fields (Agents, Listeners) once Start() has appended the profile event, its last action before blocking",
 			"the process before the restart is not killed but simply abandoned (its handle stays open); crash points are sub-check (b)",
 		},
 	})
+}
+
+// noteStartTime records the longest real Start() seen per number of restored sessions
+// (extra.real_start_ms_max@<bucket>), for the scale histories.
+func noteStartTime(sessions int, ms int64) {
+	b := scaleBucket(sessions)
+	if b == "" {
+		b = "<63"
+	}
+	k := "real_start_ms_max@sessions:" + b
+	statsMu.Lock()
+	if int(ms) > statsB[k] {
+		statsB[k] = int(ms)
+	}
+	core.SetExtra(k, statsB[k])
+	statsMu.Unlock()
 }
